@@ -106,8 +106,13 @@ func runC05(c *fw.Case) (o fw.Outcome) {
 	for vi, variant := range []struct{ name, opc, op string }{{"OP+OPc", opcS, opS}, {"OPc only", opcS, ""}, {"OP only", "", opS}} {
 		ue := tglib.NewRanUeContext("imsi-"+supi, 1, cAlg, iAlg)
 		ue.AuthenticationSubs = tglib.GetAuthSubscription(kS, variant.opc, variant.op)
-		gotRes := ue.DeriveRESstarAndSetKey(ue.AuthenticationSubs, autnA, append([]byte(nil), rnd...), snName, mnc, mcc)
+		rview, rdmg := guarded(r, rnd)
+		gotRes := ue.DeriveRESstarAndSetKey(ue.AuthenticationSubs, autnA, rview, snName, mnc, mcc)
 		o.Count("derivations", 1)
+		if d := rdmg(false); d != "" {
+			o.Fail("rand-buffer-written", "DeriveRESstarAndSetKey (%s): %s", variant.name, d)
+			return
+		}
 		if m := retainCheck("res-star", gotRes, o.Input); m != "" {
 			o.Fail("retained-result-changed", "%s", m)
 			return
